@@ -166,7 +166,27 @@ def make_bases(desc, m):
         su, sv = desc['sides']
         return (InteriorFacetBasis(m, eu, intorder=io, side=su, facets=s),
                 InteriorFacetBasis(m, ev, intorder=io, side=sv, facets=s))
+    if kind == 'oriented':
+        ob = oriented_interface(m, desc['seed'])
+        su, sv = desc['sides']
+        return (InteriorFacetBasis(m, eu, intorder=io, side=su, facets=ob),
+                InteriorFacetBasis(m, ev, intorder=io, side=sv, facets=ob))
     raise KeyError(kind)
+
+
+def oriented_interface(m, seed):
+    """an OrientedBoundary of interior facets: the interface around a random set of cells (mesh-boundary facets
+    dropped), with the orientation flags of Mesh.facets_around (and randomly flipped as a whole)"""
+    from skfem.generic_utils import OrientedBoundary
+    rng = np.random.default_rng(seed + 23)
+    for _ in range(20):
+        k = int(rng.integers(1, max(2, m.nelements)))
+        cells = np.sort(rng.permutation(m.nelements)[:k])
+        ob = m.facets_around(cells, flip=bool(rng.integers(0, 2)))
+        keep = m.f2t[1, np.asarray(ob)] != -1
+        if keep.any():
+            return OrientedBoundary(np.asarray(ob)[keep], ob.ori[keep])
+    raise RuntimeError('no interior interface found')
 
 
 # ---------------------------------------------------------------------------------------------- integrands
@@ -272,7 +292,7 @@ def gen_case(rng, quick):
     el = ELEMS[fam]
     eu = rng.choice(el)
     ev = eu if rng.random() < 0.3 else rng.choice(el)
-    kinds = ['cell'] * 3 + ['cells', 'cells', 'cells2', 'facet', 'facets', 'ifacet', 'ifacet']
+    kinds = ['cell'] * 3 + ['cells', 'cells', 'cells2', 'facet', 'facets', 'ifacet', 'ifacet', 'oriented', 'oriented']
     kind = 'cell' if fam == 'wedge' else rng.choice(kinds)
     if fam == 'wedge' and rng.random() < 0.4:
         kind = 'cells'
@@ -282,6 +302,11 @@ def gen_case(rng, quick):
     if kind == 'ifacet':
         desc['sides'] = rng.choice([(0, 1), (1, 0), (0, 0), (1, 1)])
         desc['subset'] = rng.random() < 0.5
+    if kind == 'oriented':
+        desc['sides'] = rng.choice([(0, 1), (1, 0), (1, 1), (0, 0), (1, 0)])
+        if FAMILY[mesh] == 'line':
+            desc['kind'] = 'ifacet'
+            desc['subset'] = False
     desc['nterms'] = rng.randint(1, 3)
     desc['tseed'] = rng.randrange(10 ** 6)
     return desc
@@ -308,6 +333,10 @@ def eval_case(desc):
     ub, vb = make_bases(desc, m)
     facet = desc['kind'] in ('facet', 'facets', 'ifacet')
     terms = _terms(desc, ub, vb, facet)
+    if desc['kind'] == 'oriented':          # the reference below is assembled facet group by facet group: no per-facet arrays
+        for t in terms:
+            if t['coef'] == 'array':
+                t['coef'] = 'poly'
     cplx = desc['dtype'] == 'c'
     dtype = np.complex128 if cplx else np.float64
     rng = np.random.default_rng(desc['seed'])
@@ -340,6 +369,25 @@ def eval_case(desc):
             'terms': terms, 'shape': list(A.shape)}
     if A.shape != (vb.N, ub.N):
         out.append(('shape', 1.0, 0.0))
+    if desc['kind'] == 'oriented':
+        # side s of an oriented facet with flag ori is the cell f2t[ori] for s = 0 and f2t[1 - ori] for s = 1: assemble the
+        # same form on PLAIN facet arrays, facets with ori = 0 with the sides as given, facets with ori = 1 with the sides swapped
+        from skfem.assembly import InteriorFacetBasis
+        ob = ub.find
+        su, sv = desc['sides']
+        eu_, ev_ = make_elem(desc['eu']), make_elem(desc['ev'])
+        ref = 0.
+        for g in (0, 1):
+            F = np.asarray(ob)[ob.ori == g].astype(np.int32)
+            if len(F) == 0:
+                continue
+            ug = InteriorFacetBasis(m, eu_, intorder=desc['intorder'], side=su if g == 0 else 1 - su, facets=F)
+            vg = InteriorFacetBasis(m, ev_, intorder=desc['intorder'], side=sv if g == 0 else 1 - sv, facets=F)
+            ref = ref + BilinearForm(f, dtype=dtype).assemble(ug, vg, **{k: raw[k] for k in ('p', 's')}, a=np.zeros(ug.dx.shape))
+        Ad = A.toarray() if hasattr(A, 'toarray') else A
+        Rd = ref.toarray()
+        out.append(('oriented-side', float(np.abs(Ad - Rd).max(initial=0.0)), float(np.abs(Aabs.toarray()).max(initial=0.0)) + 1e-300))
+        info['oriented'] = {'facets': int(len(ob)), 'ori1': int((ob.ori == 1).sum())}
     # linear form on the test basis (parameters given as fields of the trial basis stay valid: same quadrature points)
     lterms = [dict(t) for t in terms]
     g = linear_integrand(lterms, cplx)
